@@ -37,6 +37,8 @@ struct Sched {
 }
 
 static SCHED: Mutex<Option<Arc<Sched>>> = Mutex::new(None);
+/// also park at yield point 3 (plan obtained, its Arc still held by the requesting thread)
+static PARK_HOLDING: std::sync::atomic::AtomicBool = std::sync::atomic::AtomicBool::new(false);
 
 thread_local! {
     static TID: Cell<Option<usize>> = const { Cell::new(None) };
@@ -54,7 +56,9 @@ fn yield_hook(point: u8, k: u16) {
     g.log.push((id, point, k));
     // scheduling decisions are only needed in front of the two critical sections
     // (0: before the lookup, 2: before the insert); code between them is thread-local
-    if point == 1 || point == 3 {
+    // optionally also while the thread still holds the plan it obtained (point 3): the
+    // reference count of a plan is shared state too
+    if point == 1 || (point == 3 && !PARK_HOLDING.load(std::sync::atomic::Ordering::SeqCst)) {
         return;
     }
     park(&s, g, id, point, k);
@@ -99,6 +103,8 @@ pub struct Case {
     schedule: Vec<u8>,
     /// sizes requested single-threaded before the concurrent part (to pre-fill the cache)
     prefill: Vec<u16>,
+    /// threads also park while holding the plan they obtained (yield point 3)
+    hold: bool,
 }
 
 #[derive(Default, Debug)]
@@ -140,6 +146,7 @@ fn check_cache_invariants(ctx_msg: &str) -> Result<(Vec<(u16, u16)>, Vec<u16>), 
 fn execute(c: &Case) -> Result<Outcome, String> {
     vc::clear();
     vc::set_yield(None);
+    PARK_HOLDING.store(c.hold, std::sync::atomic::Ordering::SeqCst);
     // single-threaded prefill (not scheduled)
     for &k in &c.prefill {
         let e = SourceBlockEncoder::new(0, &block_cfg(k as usize, 2), &data_for(k));
@@ -286,7 +293,7 @@ fn run_case(c: &Case, st: &mut Stats) -> Result<Outcome, String> {
 }
 
 fn case_json(c: &Case) -> Value {
-    json!({"reqs": c.reqs, "schedule": c.schedule, "prefill": c.prefill})
+    json!({"reqs": c.reqs, "schedule": c.schedule, "prefill": c.prefill, "hold": c.hold})
 }
 
 fn case_from(v: &Value) -> Case {
@@ -295,6 +302,7 @@ fn case_from(v: &Value) -> Case {
         reqs: v["reqs"].as_array().unwrap().iter().map(arr).collect(),
         schedule: v["schedule"].as_array().unwrap().iter().map(|y| y.as_u64().unwrap() as u8).collect(),
         prefill: arr(&v["prefill"]),
+        hold: v.get("hold").and_then(|x| x.as_bool()).unwrap_or(false),
     }
 }
 
@@ -318,11 +326,11 @@ fn sig(msg: &str) -> String {
 }
 
 /// Exhaustive enumeration of all interleavings of the critical sections for one request shape.
-fn enumerate_shape(reqs: &[Vec<u16>], prefill: &[u16], st: &mut Stats, failures: &mut Vec<Failure>, cap: usize) -> usize {
+fn enumerate_shape(reqs: &[Vec<u16>], prefill: &[u16], hold: bool, st: &mut Stats, failures: &mut Vec<Failure>, cap: usize) -> usize {
     let mut prefix: Vec<u8> = vec![];
     let mut count = 0usize;
     loop {
-        let c = Case { reqs: reqs.to_vec(), schedule: prefix.clone(), prefill: prefill.to_vec() };
+        let c = Case { reqs: reqs.to_vec(), schedule: prefix.clone(), prefill: prefill.to_vec(), hold };
         let o = match run_case(&c, st) {
             Ok(o) => o,
             Err(m) => {
@@ -334,7 +342,7 @@ fn enumerate_shape(reqs: &[Vec<u16>], prefill: &[u16], st: &mut Stats, failures:
         };
         count += 1;
         if count == 1 {
-            st.sample(|| json!({"reqs": reqs, "prefill": prefill, "schedule": "all interleavings", "steps": o.steps}));
+            st.sample(|| json!({"reqs": reqs, "prefill": prefill, "hold": hold, "schedule": "all interleavings", "steps": o.steps}));
         }
         if count >= cap {
             st.class("exhaustive enumeration truncated by the cap");
@@ -399,7 +407,7 @@ fn random_strategy(evict: bool) -> impl Strategy<Value = Case> {
                 }
             }
             reqs.retain(|r| !r.is_empty());
-            Case { reqs, schedule: g.schedule, prefill }
+            Case { reqs, schedule: g.schedule, prefill, hold: g.prefill_seed % 4 == 0 }
         })
 }
 
@@ -496,14 +504,16 @@ fn stress(seed: u64, threads: usize, per_thread: usize) -> SubOutcome {
 }
 
 pub fn run(ctx: &Ctx, rep: &mut Report) {
-    rep.rule = "controlled schedules: 2-4 threads build block encoders through the process-wide plan cache; every thread parks before each of the cache's two critical sections (lookup, insert; hook yield points 0 and 2) and the harness's scheduler releases exactly one thread per step. (a) exhaustive: all interleavings of the critical sections for shapes 2 threads x 2 requests (all 16 size assignments over a 2-letter alphabet), 3 x 1 (all 8), 3 x 2 (selected assignments), 4 x 1 (the assignments distinct up to renaming; thorough also 4 threads with one 2-request thread), also with the cache pre-filled to capacity so that inserts evict; (b) generated: request lists over a small alphabet (collisions common) with generated schedules; (c) generated eviction histories: 60-90 distinct sizes pre-filled, then concurrent requests for already-evicted and fresh sizes. Invariants after every critical section: at most 64 plans, the eviction queue is a duplicate-free permutation of the key set, every plan's symbol count equals its key, lock not poisoned; at the end every encoder == the encoder built without the cache (with_encoding_plan(generate(k))) and emits the packets of the unplanned encoder. Non-trivial = schedule with a double miss on one size before either insert, or an insert that evicts; distinct by (requests, prefill, schedule).".into();
-    rep.assumptions.push("all shared state of the cache lives behind one Mutex and code between the critical sections touches thread-local data only, so interleavings at critical-section granularity cover all observable behaviours (std::sync::Mutex assumed correct)".into());
+    rep.rule = "controlled schedules: 2-4 threads build block encoders through the process-wide plan cache; every thread parks before each of the cache's two critical sections (lookup, insert; hook yield points 0 and 2) and the harness's scheduler releases exactly one thread per step; for part of the shapes and a quarter of the generated cases threads additionally park while they still hold the plan they obtained (yield point 3), because a plan's reference count is shared state as well. (a) exhaustive: all interleavings of the critical sections for shapes 2 threads x 2 requests (all 16 size assignments over a 2-letter alphabet), 3 x 1 (all 8), 3 x 2 (selected assignments), 4 x 1 (the assignments distinct up to renaming; thorough also 4 threads with one 2-request thread), also with the cache pre-filled to capacity so that inserts evict; (b) generated: request lists over a small alphabet (collisions common) with generated schedules; (c) generated eviction histories: 60-90 distinct sizes pre-filled, then concurrent requests for already-evicted and fresh sizes. Invariants after every critical section: at most 64 plans, the eviction queue is a duplicate-free permutation of the key set, every plan's symbol count equals its key, lock not poisoned; at the end every encoder == the encoder built without the cache (with_encoding_plan(generate(k))) and emits the packets of the unplanned encoder. Non-trivial = schedule with a double miss on one size before either insert, or an insert that evicts; distinct by (requests, prefill, schedule).".into();
+    rep.assumptions.push("all shared state of the cache lives behind one Mutex; between the critical sections a thread touches thread-local data and the reference count of the plan it holds, which is why part of the exploration also parks threads while they hold a plan; interleavings at that granularity cover all observable behaviours (std::sync::Mutex and Arc assumed correct)".into());
     rep.exhaustive = true;
     let started = Instant::now();
     let mut st = Stats::new();
     let mut failures: Vec<Failure> = vec![];
     let (a, b) = (5u16, 7u16);
     let mut shapes: Vec<(Vec<Vec<u16>>, Vec<u16>)> = vec![];
+    // shapes explored with threads also parking while they hold a plan (yield point 3)
+    let mut hold_shapes: Vec<(Vec<Vec<u16>>, Vec<u16>)> = vec![];
     // 2 threads x 2 requests: all assignments
     for m in 0..16u32 {
         let s = |bit: u32| if m >> bit & 1 == 0 { a } else { b };
@@ -533,16 +543,28 @@ pub fn run(ctx: &Ctx, rep: &mut Report) {
         shapes.push((vec![vec![a, b], vec![a, b], vec![b, a]], full.clone()));
         shapes.push((vec![vec![a, 20], vec![21, a], vec![b, 20]], full.clone()));
     }
+    // a thread holding the front entry of a full cache while another evicts it and a third asks again
+    hold_shapes.push((vec![vec![20], vec![a], vec![20]], full.clone()));
+    hold_shapes.push((vec![vec![a], vec![a], vec![b]], vec![]));
+    hold_shapes.push((vec![vec![20, a], vec![a, 20]], full.clone()));
+    if ctx.tier == Tier::Thorough {
+        hold_shapes.push((vec![vec![20], vec![21], vec![a], vec![20]], full.clone()));
+        hold_shapes.push((vec![vec![a, b], vec![b, a]], vec![]));
+        hold_shapes.push((vec![vec![20, 21], vec![a, 20], vec![b]], full.clone()));
+    }
     let cap = ctx.tier.pick(40_000usize, 400_000);
     let mut total = 0usize;
-    for (reqs, prefill) in &shapes {
-        if !failures.is_empty() {
-            break;
+    for (hold, list) in [(false, &shapes), (true, &hold_shapes)] {
+        for (reqs, prefill) in list {
+            if !failures.is_empty() {
+                break;
+            }
+            total += enumerate_shape(reqs, prefill, hold, &mut st, &mut failures, cap);
         }
-        total += enumerate_shape(reqs, prefill, &mut st, &mut failures, cap);
     }
     st.class_n("schedules enumerated exhaustively", total as u64);
-    st.class_n("request shapes", shapes.len() as u64);
+    st.class_n("request shapes", (shapes.len() + hold_shapes.len()) as u64);
+    st.class_n("request shapes explored with threads parking while they hold a plan", hold_shapes.len() as u64);
     rep.absorb("exhaustive", SubOutcome { stats: st, failures, wall_s: started.elapsed().as_secs_f64() });
     rep.absorb("random", run_random("random", ctx.seed, ctx.tier.pick(5000, 60_000), false));
     rep.absorb("eviction", run_random("eviction", ctx.seed, ctx.tier.pick(600, 9_000), true));
